@@ -204,7 +204,7 @@ def check(prop, tier, repo, seed):
                 known_hits.append((k, f))
             else:
                 violations.append(f)
-                native_fail.append(dict(d, program=nat["prog"], native=True))
+                native_fail.append(dict(d, program=nat["prog"], native=True, tier=tier))
                 print("FAILING INPUT (%s on the real code): %s" % (nat["prog"], json.dumps(d)))
         else:
             undecided.append("native bounded check %s exited %d: %s" % (nat["prog"], nrc, str(d)[:300]))
@@ -266,7 +266,8 @@ def check(prop, tier, repo, seed):
             print("UNDECIDED %s: %s" % (prop, u))
     else:
         print("OK %s: %d/%d obligations discharged (%s), %.1fs" % (prop, discharged, obligations,
-              ", ".join(["%s %d fns" % (u.unit, u.verified) for u in units] + (["kani %d harnesses" % len(kani_results)] if kani_results else [])), wall))
+              ", ".join(["%s %d fns" % (u.unit, u.verified) for u in units] + (["kani %d harnesses" % len(kani_results)] if kani_results else [])
+                        + ["bounded %s: %d evaluations" % (b["program"], b["evaluations"]) for b in bounded]), wall))
     for u in unstable:
         print("WARNING unstable proof: %s" % u)
     for n in notes:
@@ -282,8 +283,10 @@ def check(prop, tier, repo, seed):
         "checker_cmd": " ; ".join(checker_cmds),
         "trusted_base": sorted(trusted),
         "functions_under_contract": functions,
-        "backends": [{"name": "verus 0.2026.09.13 + z3", "units": [u.unit for u in units], "smt_ms": smt_ms,
-                      "functions_verified": sum(u.verified for u in units)}] +
+        "backends": ([{"name": "verus 0.2026.09.13 + z3", "units": [u.unit for u in units], "smt_ms": smt_ms,
+                       "functions_verified": sum(u.verified for u in units)}] if units else []) +
+                    ([{"name": "native bounded programs (rustc release, overflow checks on) -- bounded stand-in, not a proof",
+                       "programs": [b["program"] for b in bounded], "evaluations": sum(b["evaluations"] for b in bounded)}] if bounded else []) +
                     ([{"name": "kani 0.68 + cbmc 6.11", "harnesses": len(kani_results), "ok": sum(1 for r in kani_results if r["status"] == "ok"),
                        "cpu_s": round(sum(float(r.get("time_s") or 0) for r in kani_results), 1)}] if kani_results else []),
         "rewrites_applied": rules,
@@ -298,9 +301,10 @@ def check(prop, tier, repo, seed):
         "notes": notes,
     }
     if level != "proof":
-        cov["evaluations"] = max(1, obligations)
-        cov["distinct_nontrivial"] = max(2, discharged)
-        cov["rule"] = "one evaluation per function-level verification condition generated from the extracted code"
+        cov["evaluations"] = max(1, obligations) + sum(b["evaluations"] for b in bounded)
+        cov["distinct_nontrivial"] = max(2, discharged) + sum(b["evaluations"] for b in bounded)
+        cov["rule"] = ("one evaluation per function-level verification condition generated from the extracted code, plus one per input "
+                       "executed by a bounded native program (each input is a distinct value of its enumeration)")
     ev = {
         "property_id": prop, "tier": tier, "seed": seed, "level": level, "coverage": cov,
         "assumptions": sorted(assumptions) + [cfg["level_note"]],
